@@ -3,6 +3,9 @@
 package main
 
 import (
+	"os"
+	"strconv"
+
 	"verifharness/internal/vh"
 )
 
@@ -26,9 +29,15 @@ func main() {
 		Anchors:       []string{"pilot/pkg/model/endpointshards.go", "pilot/pkg/xds/endpoints/", "pilot/pkg/xds/eds.go"},
 		MinNontrivial: func(t string) int { return map[string]int{"quick": 1000, "thorough": 100000}[t] },
 		Batches:       func(t string) int { return map[string]int{"quick": 4, "thorough": 14}[t] },
-		Parallel:      func(t string) int { return map[string]int{"quick": 4, "thorough": 14}[t] },
-		TimeoutSec:    func(t string) int { return map[string]int{"quick": 300, "thorough": 1500}[t] },
-		Run:           run,
+		Parallel: func(t string) int {
+			// development aid: EPINDEX_DEV_PARALLEL caps the children alive at once (same batches, same cases)
+			if n, err := strconv.Atoi(os.Getenv("EPINDEX_DEV_PARALLEL")); err == nil && n > 0 {
+				return n
+			}
+			return map[string]int{"quick": 4, "thorough": 14}[t]
+		},
+		TimeoutSec: func(t string) int { return map[string]int{"quick": 300, "thorough": 1500}[t] },
+		Run:        run,
 	})
 }
 
